@@ -631,7 +631,17 @@ func (env *specEnv) evalCall(x *ECall) SVal {
 		if t == nil {
 			specFail("cast: unknown type %q", name.V)
 		}
-		return SVal{T: v.T, GoT: t}
+		switch types.Unalias(t).Underlying().(type) {
+		case *types.Pointer, *types.Map, *types.Chan, *types.Signature, *types.Interface:
+			return SVal{T: v.T, GoT: t}
+		}
+		// a value type stored in an interface is boxed (instr.go makeInterface): unbox it
+		srt := c.sortOf(t)
+		unbox := quote("unbox " + typeKey(t))
+		box := quote("box " + typeKey(t))
+		c.decl("box "+box, fmt.Sprintf("(declare-fun %s (%s) Int)", box, srt))
+		c.decl("unbox "+unbox, fmt.Sprintf("(declare-fun %s (Int) %s)", unbox, srt))
+		return SVal{T: mk(srt, unbox, v.T), GoT: t}
 	case "int", "int64", "int32", "uint64", "uint32", "uint", "uint8", "byte", "int8", "int16", "uint16":
 		v := arg(0)
 		if v.T.Sort == SReal {
